@@ -12,6 +12,8 @@ import random
 from ..core import Ctx, canon, digest
 from ..forkpool import prepare_imports, run_cases
 from ..lattice import ALL, EMBEDDINGS, EXACT, OffLattice
+
+EMBS = ALL + ["micro"]
 from .. import tlc
 
 K = 24
@@ -72,25 +74,61 @@ def _apply(emb, ra, rb, op, arg):
 
 
 def run_case(case):
-    """-> {embedding: [res per event]}; res is a lattice value, or {"exc": ..} / {"off": ..}"""
+    """-> {embedding: [res per event]}; res is a lattice value, or {"exc": ..} / {"off": ..}.
+    kind "live": the two Rectangle objects are created once and kept across the events; the pseudo-operation `move`
+    shifts `a` IN PLACE (r.center.x += dx, as Module.recenter_rectangles does), every later event sees the same object."""
     from frame.geometry.geometry import Rectangle
     out = {}
+    live = case["kind"] == "live"
     for en in case["embs"]:
         emb = EMBEDDINGS[en]
         Rectangle.undefine_epsilon()
         Rectangle.set_epsilon(1e-11 * float(emb.step) * case["extent"])
         obs = []
+        if live:
+            ra, rb = _mk(emb, case["a"]), _mk(emb, case["b"])
         for ev in case["events"]:
-            ra = _mk(emb, case["a"])
-            rb = _mk(emb, case["b"]) if case["kind"] == "pair" else None
+            if not live:
+                ra = _mk(emb, case["a"])
+                rb = _mk(emb, case["b"]) if case["kind"] == "pair" else None
             try:
-                obs.append(_apply(emb, ra, rb, ev["op"], ev["arg"]))
+                if ev["op"] == "move":
+                    ra.center.x += emb.length(ev["arg"][0])
+                    ra.center.y += emb.length(ev["arg"][1])
+                    obs.append([])
+                else:
+                    obs.append(_apply(emb, ra, rb, ev["op"], ev["arg"]))
             except OffLattice as e:
                 obs.append({"off": str(e)})
             except Exception as e:  # the operation is defined on this input, so raising is a failure
                 obs.append({"exc": f"{type(e).__name__}: {e}"})
         out[en] = obs
     return out
+
+
+def live_cases(rng: random.Random, n: int) -> list[dict]:
+    """One live pair of rectangles queried, moved in place, and queried again (stale derived state shows here)."""
+    cases = []
+    M = 12 * K
+    pair_ops = ("area_overlap", "overlap", "mul", "is_inside", "touches")
+    for _ in range(n):
+        x1, y1 = K * rng.randint(2, 6), K * rng.randint(2, 6)
+        a = [x1, y1, x1 + K * rng.randint(1, 4), y1 + K * rng.randint(1, 4), "g", rng.randint(0, 1), rng.randint(0, 1)]
+        bx, by = K * rng.randint(1, 7), K * rng.randint(1, 7)
+        b = [bx, by, bx + K * rng.randint(1, 4), by + K * rng.randint(1, 4), rng.choice("gg" "r"), 0, 0]
+        ev = [{"op": o, "arg": []} for o in pair_ops]
+        for _j in range(rng.randint(1, 3)):
+            dx, dy = K * rng.randint(-2, 4), K * rng.randint(-2, 4)
+            ev.append({"op": "move", "arg": [dx, dy]})
+            ev += [{"op": o, "arg": []} for o in rng.sample(pair_ops, 4)]
+            ev.append({"op": "point_inside", "arg": [2 * (x1 + dx) + K, 2 * (y1 + dy) + K]})
+        # keep the object in the non-negative quadrant whatever the moves add up to
+        tot_x = sum(e["arg"][0] for e in ev if e["op"] == "move")
+        tot_y = sum(e["arg"][1] for e in ev if e["op"] == "move")
+        if x1 + min(0, tot_x) - 4 * K < 0 or y1 + min(0, tot_y) - 4 * K < 0:
+            a[0] += 6 * K; a[2] += 6 * K; a[1] += 6 * K; a[3] += 6 * K
+        cases.append({"kind": "live", "a": a, "b": b, "events": ev})
+    return cases
 
 
 def random_cases(rng: random.Random, n: int) -> list[dict]:
@@ -148,7 +186,7 @@ def decide(ctx: Ctx, cases: list[dict]):
     prepare_imports()
     import frame.geometry.geometry  # noqa: F401  (imported in the parent, used only in children)
     for c in cases:
-        c.setdefault("embs", ALL)
+        c.setdefault("embs", EMBS)
         xs = [c["a"][2], c["a"][3], c["b"][2], c["b"][3]]
         c["extent"] = max(xs)
     results = run_cases(run_case, cases, nproc=16)
@@ -167,7 +205,7 @@ def decide(ctx: Ctx, cases: list[dict]):
                                   {"op": ev["op"], "embedding": en})
                     continue
                 evs.append({"op": ev["op"], "arg": ev["arg"], "res": o})
-            t = {"a": c["a"], "b": c["b"], "exact": int(en in EXACT), "events": evs}
+            t = {"a": c["a"], "b": c["b"], "exact": int(en in EXACT), "small": int(en == "micro"), "events": evs}
             key = digest(t)
             if key not in traces:
                 t["id"] = key
@@ -181,7 +219,8 @@ def decide(ctx: Ctx, cases: list[dict]):
         ctx.count(key, nontrivial=nontrivial, n=0)
         for (l, op) in v["fails"]:
             ev = t["events"][l - 1]
-            ctx.violation(op, {"a": t["a"], "b": t["b"], "event": ev, "embeddings": owners[key]},
+            prefix = t["events"][:l - 1] if any(e["op"] == "move" for e in t["events"][:l - 1]) else []
+            ctx.violation(op, {"a": t["a"], "b": t["b"], "event": ev, "events_before": prefix, "embeddings": owners[key]},
                           {"observed": ev["res"]}, {"op": op, "embedding": owners[key][0]})
         for (l, op) in v["drift"]:
             if [l, op] not in v["fails"]:
@@ -218,6 +257,9 @@ def run(ctx: Ctx) -> int:
         kind = "one" if c["b"][:4] == [0, 0, 0, 0] else "pair"
         ev = c["event"]
         case = {"kind": kind, "a": c["a"], "b": c["b"], "events": [{"op": ev["op"], "arg": ev["arg"]}]}
+        if c.get("events_before"):      # a live-object trace: replay the whole prefix on one object
+            case = {"kind": "live", "a": c["a"], "b": c["b"],
+                    "events": [{"op": e["op"], "arg": e["arg"]} for e in c["events_before"]] + case["events"]}
         decide(ctx, [case])
         return ctx.finish("model_checking", "replay of one recorded case")
     tier = ctx.tier
@@ -225,10 +267,11 @@ def run(ctx: Ctx) -> int:
     cases = tlc.generate(ctx, "GeometryOps", f"GeometryOps_gen_{tier}")
     rng = random.Random(ctx.seed * 1000003 + 18)
     cases += random_cases(rng, 600 if tier == "quick" else 6000)
+    cases += live_cases(rng, 150 if tier == "quick" else 1500)
     decide(ctx, cases)
     if tier == "thorough":
         ctx.extra["tlaps"] = tlaps_extras(ctx)
-    ctx.extra["embeddings"] = ALL
+    ctx.extra["embeddings"] = EMBS
     ctx.extra["cases_from_tlc"] = len(cases)
     ctx.assumptions += [
         "float dimension sampled by 8 embeddings of the integer lattice (steps 1, 1.0, 1/2, 1/10, 1/3, 1e3, 1e-3, 0.1+37.3), not enumerated",
